@@ -66,8 +66,10 @@ claim("C32",
       "Each opcode function is called directly on an EvalContext whose stack holds fully symbolic operands and is compared with an exact-integer reference: + - * / % (error iff overflow / negative / zero divisor, exact value), "
       "< > <= >= == != && || !, | & ^ ~, shl/shr (all 64 shift amounts case-split, error iff amount > 63), bitlen (input space partitioned by the expected answer), addw, mulw, divw (error iff divisor 0 or quotient >= 2^64, "
       "0 <= num - q*y < y), itob, btoi (lengths 0..9), sqrt (operand < 2^16 quick / 2^32 thorough), and byte math b+ b- b* b/ b% b< b> b<= b>= b== b!= on big-endian operands of symbolic length and content "
-      "(<= 2 bytes quick, <= 4 thorough; * / % <= 1 / 2 bytes) with math/big executed as real pure-Go code, plus the 64-byte input limit. A Go panic inside an opcode is a violation.",
-      "64-bit uint ops are full width. exp/expw/divmodw/bsqrt and bitwise byte ops are not yet covered. math/big is loaded with the math_big_pure_go tag (same semantics as the assembly kernels used natively).")
+      "(<= 2 bytes quick, <= 4 thorough; * / % <= 1 / 2 bytes) with math/big executed as real pure-Go code, plus the 64-byte input limit. exp: exponents 0, 1, 2 and >= 64 with a fully symbolic 64-bit base "
+      "(0^0 fails; result exact or error iff base^e >= 2^64). A Go panic inside an opcode is a violation.",
+      "64-bit uint ops are full width. exp with exponents 3..63 is NOT solver-decided (chains of symbolic 64-bit products with a division per step were undecided by every back end, even for e=3 and base < 2^33): VerifC32ExpGrid runs it on concrete bases 2, 3 and the five values around floor(2^(64/e)) for every e - a grid of concrete runs, reported as such. "
+      "expw/divmodw/bsqrt and bitwise byte ops are not covered. math/big is loaded with the math_big_pure_go tag (same semantics as the assembly kernels used natively).")
 
 claim("C31",
       "One EvalContext.step() of every opcode of the real latest-version dispatch table (built by the package's own init, executed by the engine from the current tree), in signature mode, with the stack filled according to the opcode's declared "
@@ -82,8 +84,9 @@ claim("C34",
       "(a) Table level: the per-version dispatch tables built by the package's real init() are copied into plain arrays and queried with a SYMBOLIC (version, opcode): an opcode dispatched at version v was introduced at or before v and stays "
       "available at v+1; every opcode named in an independent list of ledger-touching operations is excluded from signature mode at every version. (b) Dynamic: in the C31 step harness the ledger is nil, so any signature-mode step reaching ledger code "
       "would panic; additionally a step that succeeds in signature mode has ModeSig in its mask. (c) Static/dynamic agreement: for every opcode with a check function or a dynamic size (constant blocks, push*, branches, callsub, switch, match, proto, frame ops...), "
-      "on the same symbolic immediate bytes, checkStep and step advance the pc identically and every branch target execution takes was marked legal by the check; a non-branching step that executes also passes the check.",
-      "Latest version table for (b),(c); 3 symbolic bytes after the opcode (thorough 6). Field-level gating (txn/global/asset_params_get field groups) is not covered. Back-branch alignment needs whole-program knowledge (instructionStarts) and is exempted in the single-step setting (explained in the harness).")
+      "on the same symbolic immediate bytes, checkStep and step advance the pc identically and every branch target execution takes was marked legal by the check; a non-branching step that executes also passes the check. "
+      "(d) Field level: for every version 1..LogicVersion, every opcode of that version's table with a field immediate, and every field number the opcode's FieldGroup says is not usable at that version (each too-new field, the first undefined number, 255), one real step() on symbolic operands (application mode with a nil ledger for app-only opcodes; concrete valid P-256 operands for the ecdsa opcodes) ends in an error and never panics.",
+      "Latest version table for (b),(c); 3 symbolic bytes after the opcode (thorough 6). (d) trusts the FieldGroup tables (Names, Version()) as the oracle and covers the first field immediate of an opcode; fields hidden from the assembler (empty name) and sub-opcode tables are skipped. Back-branch alignment needs whole-program knowledge (instructionStarts) and is exempted in the single-step setting (explained in the harness).")
 
 claim("C37",
       "Real Build/Prove/Verify/VerifyVectorCommitment (layer hashing, partial layers, sibling hints, index conversion and padding, worker goroutines sequentialised) with the hash an injective uninterpreted function. "
@@ -174,3 +177,30 @@ claim("C30",
       "The real catchup Service.fetchAndWrite with up to 2 fetch attempts (thorough 3), each an adversarial choice among fetch error, no-block error, nil block or a block+certificate with symbolic ContentsMatchHeader and Authenticate verdicts, symbolic CatchupBlockValidateMode (0-15) and symbolic ledger answers: at most one write and never through EnsureBlock; the written pair is the last fetched block and certificate; "
       "unless the mode bit disables it the written block matched its header and the pair authenticated, with those checks preceding the write on that same block; the write happens only after the previous round's completion signal was consumed; Validate precedes AddValidatedBlock in validate modes; a response failing an enabled check is never written; err == nil iff the ledger accepted the write.",
       "innerFetch, Block.ContentsMatchHeader and errors.As are stubs; ledger, authenticator, peer selector and context are fakes; lookbackComplete modelled closed, no select ever has two ready cases. pipelinedFetch's cross-goroutine channel wiring, timeouts/backoff, the real fetcher (incl. its round == r check) and the 500-retry limit are outside.")
+
+claim("C18",
+      "The real roundCowState.Move (UnfundedSenders on and off, self-transfer), BlockEvaluator takeFee / proposer payout and apply.Payment (with and without close) over a 4-5 account model with full 64-bit symbolic balances, reward levels and amounts: on nil, amt <= money(from), no credit overflow, "
+      "money(from) and money(to) change by exactly amt and the exact-integer total is conserved, pending rewards are folded consistently (MicroAlgos, RewardedMicroAlgos, RewardsBase) and the reward counters grow by exactly the folded rewards, no other account or field changes; feesCollected grows by the fee exactly when the sender is not the sink; "
+      "Payment conserves the total of all accounts, ClosingAmount is everything the sender had left, a closed sender ends at zero and is deleted only when no money and no asset/app/box counters remain; every error has a stated reason and never credits the receiver.",
+      "Move is not atomic on its own (a failed receiver credit leaves the debited sender in the cow): atomicity is C19's, and the harness states what is true of Move. Contracts used instead of code: WithUpdatedRewards / RewardUnits (decided in C12), autoHeartbeat (decided by its own harness). Assumes RewardUnit >= 1 and that each account's money and the model total fit 64 bits (supply bound). "
+      "The rewards-pool withdrawal in StartEvaluator, asset / app / inner-transaction paths and whole-block composition are outside.")
+
+claim("C19",
+      "Merge lemma: the real roundCowState child / commitToParent / recycle over a block-level cow on an arbitrary ledger, 0-2 writes (thorough 3) to accounts (incl. closes), boxes, transactions (checkDup + addTx) and creatables, compared with a ghost: the child sees its own writes, the parent is isolated until commit, after commit it returns exactly the child's values for what the child wrote and its previous values otherwise, after discard it is unchanged. "
+      "Real BlockEvaluator.TransactionGroup with groups of 0-2 (thorough 3) members whose evaluation is an arbitrary writer that returns nil, returns an error or panics: on error every account, the box, duplicate verdicts, counters, payset and block bytes are identical to before, evaluation stopped at the first failing member, a panic is reported as EvalPanicError; on nil every member ran once in order on a child of eval.state and exactly the members' writes are visible.",
+      "eval.transaction is a stub writer (arbitrary account record, box, fee tally, addTx); crypto.Hash / Transaction.ID injective uninterpreted; members distinct and not already in the block; a child never calls SetStateProofNextRound(0) (apply.StateProof never does). Quick tier fixes validate=true for the pair harness.")
+
+claim("C21",
+      "basics.MinBalance formula: with MulSaturate replaced by min(P, 2^64-1) over an uninterpreted product it returns min(MinBalance + the nine products, 2^64-1) exactly (64-bit adds with carry flags), and the schema entry term saturates like perEntry*(uints+byteslices). The real checkMinBalance over a child cow with 1-2 modified records (possibly closed, or a special address): nil => every non-special, non-zero modified account has balance incl. pending rewards >= requirement (or the requirement saturates and the balance is exactly 2^64-1) and the requirement respects MaximumMinimumBalance; "
+      "the real eval.transaction applies then checks exactly once, on the group's cow, after the writes, whenever validating or generating, and a failing check rejects the transaction.",
+      "Contracts: MulSaturate/AddSaturate (decided in C45), WithUpdatedRewards (C12). The documented formula's grouping of AppFlatParams terms relies on distributivity, which is not decided. applyTransaction is a stub in the transaction harness. With neither validate nor generate set the check is skipped (as documented).")
+
+claim("C08",
+      "accountUpdates lookupWithoutRewards / lookupResource / lookupKv / getCreatorForRound / roundOffset on a tracker state built from a symbolic cachedDBRound D and 2 (thorough 3) real StateDeltas, each optionally writing the queried object, LRU cache disabled / empty / holding the DB value, and a lazy DB reader (in-sync row, out-of-sync row, error): for every query round in [D, D+N] the answer equals the ghost history value at that round (whole struct), rewards level/version are that round's, validThrough is sound; "
+      "if memory determines the answer the DB is not called, otherwise exactly once for that object; an answer with round != D yields MismatchingDatabaseRoundError; outside the window every lookup errors without touching the DB.",
+      "Representation invariants R1-R5 of the tracker (versions/roundTotals lengths, index maps consistent with deltas, base-cache entries equal the DB value at D) are ASSUMED; their maintenance by newBlock / commitRound / postCommit / loadFromDisk - the flush-schedule and restart half of the property - is outside, as are the synchronized retry loops, lookupLatest, lookupAllResources and online accounts.")
+
+claim("C10",
+      "accountUpdates.lookupAssetResources(addr, cursor, limit) with a DB reader obeying the SQL contract (first min(max,K) rows above the cursor, increasing, joined creator/params, round D), K <= 2 rows (thorough 3), limit 1..2 (3), two delta rounds with symbolic holding writes/deletes, creator create/reconfigure/destroy and third-party records: the page is exactly the first `limit` present ids above the cursor in the merged (DB + deltas) view - strictly increasing, newest amount, creator/params from the newest params record (absent when destroyed), nothing present skipped unless beyond a full page; "
+      "a DB behind the tracker gives StaleDatabaseRoundError, reader errors pass through, limit 0 touches nothing.",
+      "Single page at the latest round only; the SQL scan, lookupApplicationResources, kv-prefix / box listings, REST next-token plumbing and multi-page iteration (on paper: pages taken at one round compose) are outside; a DB ahead of the tracker waits on a condition variable that is not modelled.")
